@@ -189,6 +189,10 @@ def run(rep):
                           {"cases": [src["cmd"]], "impl": ri.get(m["src"]), "spec_decode": vlib.short(ro.get(oid), 2000), "expected": want})
     rep.sample(vlib.short(cs.lines[5], 200))
 
+    # ---------------- (c2) the same with alpha optimisation: rows must decode to the input up to the colour under alpha = 0
+    from props import c03
+    c03.filter_alpha(rep, 25 if quick else 300, "C19")
+
     # ---------------- (d) foreign streams: spec-filtered, arbitrary types per row, decoded by oxipng
     cs = vlib.Cases()
     for (ct, depth) in pg.LEGAL:
